@@ -10,7 +10,7 @@ Oracle :
   exclusive:same-tick-exec   in no tick do two instances of one command, or of one overlap group, get an exec callback
   conflict:*                 when an instance starts while an older one of its name/group was executing at the start of that
                              tick, the older one gets no exec after the newer one started and is finalized in that tick
-  init:* / finalize:* / reinit-after-finalize / callback-after-finalize / instance:args-changed
+  init:* / finalize:* / reinit-after-finalize / cancelled-instance-restarted / callback-after-finalize / instance:args-changed
                              per instance id: exactly one init, before the first exec; at most one finalize; nothing after it;
                              all exec callbacks of one instance carry the same arguments
   finalize:missing-at-run-end / leak:args-rejected-instance / registry:*
@@ -90,7 +90,12 @@ def cases(draw, cfg):
                 ops.append([i, "user", k])
     ops.sort(key=lambda o: o[0])
     ops.append([n_ticks - 4, "user", "Stop"])
-    return {"tree": tree, "inputs": draw(C.INPUTS), "ops": ops, "n_ticks": n_ticks}
+    case = {"tree": tree, "inputs": draw(C.INPUTS), "ops": ops, "n_ticks": n_ticks}
+    # half of the cases run on a unit with further overlap declarations, so that a command is a member of two lists
+    extra = draw(st.sampled_from([[], [], [], [["OvA", "Slow"]], [["OvB", "Slow"]], [["Slow", "OvB"], ["Quick", "OvA"]]]))
+    if extra:
+        case["overlaps"] = extra
+    return case
 
 
 # ---------------------------------------------------------------------------------------------
@@ -130,6 +135,13 @@ def oracle(case, tr: C.Trace) -> tuple[list[Violation], dict]:
             if r["start_pos"] < it.first_pos < r["stop_pos"] and (it.init or it.exec) and not _ended(it, end_pos):
                 leaked[it.id] = r["stop_pos"]
 
+    # accepted cancel requests per instance id (tick before which the request was made)
+    cancelled_by_request: dict = {}
+    for t in tr.ticks:
+        for op in t.ops:
+            if op[0] == "cancel" and op[2] and op[1] in insts:
+                cancelled_by_request.setdefault(op[1], []).append(t.no)
+
     # -- A. pairing per instance (a small state machine over the instance's callbacks in order) ---------------
     for it in insts.values():
         tag = "%s (..%s, args %r)" % (it.name, it.id[-4:], it.args)
@@ -143,6 +155,12 @@ def oracle(case, tr: C.Trace) -> tuple[list[Violation], dict]:
                     state = "initialised"
                 elif state == "initialised":
                     viol("init:twice", "%s: second init callback in tick %d without a finalize in between" % (tag, tick))
+                elif any(ct <= tick for ct in cancelled_by_request.get(it.id, [])):
+                    viol("cancelled-instance-restarted", "%s: a cancel request for this instance was accepted before tick %d; it "
+                         "was finalized in tick %d, then initialised again in tick %d and executed from iteration 0 (%d exec "
+                         "callbacks after the accepted cancel)"
+                         % (tag, cancelled_by_request[it.id][0], last_fin, tick, sum(1 for q, _ in it.exec if q > pos)))
+                    state = "initialised"
                 else:
                     viol("reinit-after-finalize", "%s: finalized in tick %d, then initialised again in tick %d and executed "
                          "from iteration 0 (%d exec callbacks afterwards)"
@@ -169,18 +187,19 @@ def oracle(case, tr: C.Trace) -> tuple[list[Violation], dict]:
             viol("instance:args-changed", "%s: one instance executed with different arguments %r (another request took the "
                  "instance over)" % (tag, it.args_seen))
 
-    # -- B. exclusivity per tick --------------------------------------------------------------------
+    # -- B. exclusivity per tick (pairwise: same command, or both named in one overlap declaration) -----------
+    lists = C.overlap_lists(case)
     for t in tr.ticks:
-        groups: dict = {}
+        ids: list = []
         for e in t.ev:
-            if e[1] == "cmd" and e[4] == "exec":
-                g = groups.setdefault(C.group_of(e[2]), [])
-                if e[3] not in g:
-                    g.append(e[3])
-        for g, ids in groups.items():
-            if len(ids) > 1:
-                a, b = insts[ids[0]], insts[ids[1]]
-                lo, hi = tick_from[t.no], tick_end[t.no]
+            if e[1] == "cmd" and e[4] == "exec" and e[3] not in ids:
+                ids.append(e[3])
+        lo, hi = tick_from[t.no], tick_end[t.no]
+        for i in range(len(ids)):
+            for j in range(i + 1, len(ids)):
+                a, b = insts[ids[i]], insts[ids[j]]
+                if not C.conflicting(a.name, b.name, lists):
+                    continue
                 if any(x.id in leaked and leaked[x.id] < lo for x in (a, b)):
                     info["attributed_to_leak"] += 1
                     continue
@@ -202,7 +221,7 @@ def oracle(case, tr: C.Trace) -> tuple[list[Violation], dict]:
         tk = min(n.init + n.exec + n.fin)[1]      # tick of its first callback
         start_of_tick = tick_from.get(tk, 0)
         for o in order:
-            if o is n or o.first_pos >= p or C.group_of(o.name) != C.group_of(n.name):
+            if o is n or o.first_pos >= p or not C.conflicting(o.name, n.name, lists):
                 continue
             if any(fp < start_of_tick for fp, _ in o.fin):
                 continue            # ended before this tick: no conflict
@@ -242,6 +261,8 @@ def oracle(case, tr: C.Trace) -> tuple[list[Violation], dict]:
         stop_pos = r["stop_pos"]
         marks = [q for q, ev in enumerate(tr.events[:stop_pos]) if ev[1] == "cancel_all" and q > r["start_pos"]]
         begin_pos = marks[-1] if marks else stop_pos
+        delivery = {"user": "user-request", "code": "code-issued"}.get(tr.events[marks[-1]][3], "unknown-delivery") \
+            if marks else "unknown-delivery"
         P = tr.by_no(s - 2)
         if P is not None and P.inst:
             info["alive_at_run_end"] += 1
@@ -251,7 +272,12 @@ def oracle(case, tr: C.Trace) -> tuple[list[Violation], dict]:
                 continue
             if (it.init or it.exec) and not _ended(it, end_pos):
                 began = [q for q, _ in it.init] or [q for q, _ in it.exec]
-                cause = "started-after-cancel" if max(began) >= begin_pos else "not-cancelled"
+                if max(began) < begin_pos:
+                    cause = "not-cancelled"
+                elif any(fp < max(began) for fp, _ in it.fin):
+                    cause = "restarted-after-cancel"        # the id had a life before (by-name cancellation + stale request)
+                else:
+                    cause = "started-after-cancel:%s" % delivery   # first started after the Stop/Restart cancelled everything
                 viol("finalize:missing-at-run-end:%s" % cause,
                      "tick %d: the run ended (%s) but %s (..%s, args %r), initialised in tick %d, has %s"
                      % (s, r["kind"], it.name, it.id[-4:], it.args, (it.init or it.exec)[0][1],
